@@ -111,6 +111,10 @@ class Tmatrix(ScatteringTheory):
         if not (np.ndim(rxy) == 0 and np.ndim(rz) == 0 and rxy > 0 and
                 rz > 0):
             raise InvalidScatterer(scatterer, "dimensions must be positive")
+        # (python floats: the products below overflow in narrow integer
+        # types and lose digits in narrow floating-point ones)
+        rxy, rz = float(rxy), float(rz)
+        rotation = [float(angle) for angle in scatterer.rotation]
         # radius of the sphere of equal volume: (4/3) pi axi^3 is
         # (4/3) pi rxy^2 rz for a spheroid and 2 pi rxy^2 rz for a cylinder
         axi = ((3/2)**iscyl*rz*rxy**2)**(1/3.)
@@ -144,8 +148,8 @@ class Tmatrix(ScatteringTheory):
         # direction of the light, i.e. HoloPy's z axis reversed (positions are
         # mirrored accordingly in ImageFormation): a symmetry axis with polar
         # angle beta in HoloPy's frame has polar angle 180 - beta there.
-        alpha = scatterer.rotation[2] * 180 / np.pi
-        beta = 180 - scatterer.rotation[1] * 180 / np.pi
+        alpha = rotation[2] * 180 / np.pi
+        beta = 180 - rotation[1] * 180 / np.pi
         # The Fortran code only accepts 0 <= alpha <= 360, 0 <= beta <= 180
         # (and stops the process otherwise); map other values to the
         # equivalent orientation of the symmetry axis inside that range.
